@@ -290,3 +290,53 @@ impl<'a, T: Copy> VIter<&'a T> {
     #[verifier::external_body]
     pub fn copied(self) -> (r: VIter<T>) ensures r@ == derefs::<T>(self@) { unimplemented!() }
 }
+
+// ----- further std adapters (so that realistic edits of a pipeline stay within reach of the verifier instead of UNDECIDED) -----
+pub open spec fn seq_skip_while<T>(s: Seq<T>, p: spec_fn(T) -> bool) -> Seq<T>
+    decreases s.len()
+{
+    if s.len() == 0 { s } else if p(s[0]) { seq_skip_while(s.subrange(1, s.len() as int), p) } else { s }
+}
+pub open spec fn seq_take_while<T>(s: Seq<T>, p: spec_fn(T) -> bool) -> Seq<T>
+    decreases s.len()
+{
+    if s.len() == 0 { s } else if p(s[0]) { seq![s[0]] + seq_take_while(s.subrange(1, s.len() as int), p) } else { Seq::empty() }
+}
+pub open spec fn seq_any<T>(s: Seq<T>, p: spec_fn(T) -> bool) -> bool { exists|i: int| 0 <= i < s.len() && #[trigger] p(s[i]) }
+pub open spec fn seq_all<T>(s: Seq<T>, p: spec_fn(T) -> bool) -> bool { forall|i: int| 0 <= i < s.len() ==> #[trigger] p(s[i]) }
+impl<T> VIter<T> {
+    // Iterator::skip_while: drops the longest prefix whose items all satisfy the predicate, keeps EVERYTHING after it
+    #[verifier::external_body]
+    pub fn skip_while<F: Fn(&T) -> bool>(self, f: F) -> (r: VIter<T>)
+        requires forall|x: &T| f.requires((x,)),
+        ensures forall|p: spec_fn(T) -> bool| (forall|x: T, b: bool| f.ensures((&x,), b) ==> b == p(x)) ==> r@ == #[trigger] seq_skip_while(self@, p),
+    { unimplemented!() }
+    // Iterator::take_while: the longest prefix whose items all satisfy the predicate
+    #[verifier::external_body]
+    pub fn take_while<F: Fn(&T) -> bool>(self, f: F) -> (r: VIter<T>)
+        requires forall|x: &T| f.requires((x,)),
+        ensures forall|p: spec_fn(T) -> bool| (forall|x: T, b: bool| f.ensures((&x,), b) ==> b == p(x)) ==> r@ == #[trigger] seq_take_while(self@, p),
+    { unimplemented!() }
+    // Iterator::skip: everything after the first n items
+    #[verifier::external_body]
+    pub fn skip(self, n: usize) -> (r: VIter<T>) ensures r@ == self@.skip(if (n as int) <= self@.len() { n as int } else { self@.len() as int }) { unimplemented!() }
+    // DoubleEndedIterator::rev
+    #[verifier::external_body]
+    pub fn rev(self) -> (r: VIter<T>) ensures r@ == self@.reverse() { unimplemented!() }
+    // Iterator::last / next / count
+    #[verifier::external_body]
+    pub fn last(self) -> (r: Option<T>) ensures self@.len() == 0 ==> r is None, self@.len() > 0 ==> r == Some(self@.last()) { unimplemented!() }
+    #[verifier::external_body]
+    pub fn count(self) -> (r: usize) ensures r == self@.len() { unimplemented!() }
+    // Iterator::any / all
+    #[verifier::external_body]
+    pub fn any<F: Fn(T) -> bool>(self, f: F) -> (r: bool)
+        requires forall|x: T| f.requires((x,)),
+        ensures forall|p: spec_fn(T) -> bool| (forall|x: T, b: bool| f.ensures((x,), b) ==> b == p(x)) ==> r == #[trigger] seq_any(self@, p),
+    { unimplemented!() }
+    #[verifier::external_body]
+    pub fn all<F: Fn(T) -> bool>(self, f: F) -> (r: bool)
+        requires forall|x: T| f.requires((x,)),
+        ensures forall|p: spec_fn(T) -> bool| (forall|x: T, b: bool| f.ensures((x,), b) ==> b == p(x)) ==> r == #[trigger] seq_all(self@, p),
+    { unimplemented!() }
+}
